@@ -37,9 +37,30 @@ def seg_tensor(torch, shape, dim, left=False):
     return torch.stack([v, v], -1).contiguous(), base
 
 
+class ShapeError(Exception):
+    pass
+
+
+def relayout(torch, x, layout):
+    """the same values and shape as x in another memory layout: 'T' = non-contiguous (permuted) view of a contiguous
+    buffer, 'S' = every second element of a larger buffer along the pair axis' neighbour; 'C' = contiguous"""
+    if layout == 'T' and x.dim() >= 3:
+        perm = list(range(x.dim() - 1))
+        perm = perm[1:] + perm[:1] + [x.dim() - 1]
+        inv = [perm.index(k) for k in range(x.dim())]
+        return x.permute(perm).contiguous().permute(inv)
+    if layout == 'S' and x.dim() >= 2 and x.shape[0] > 0:
+        buf = torch.full((2 * x.shape[0],) + tuple(x.shape[1:]), -7, dtype=x.dtype)
+        buf[::2] = x
+        return buf[::2]
+    return x.clone()
+
+
 def deviations(t, base, dim, left=False):
     """per fibre: list of (i, first, last) where the output differs from [base, base+i]"""
     import torch
+    if tuple(t.shape) != tuple(base.shape) + (2,):
+        raise ShapeError('result has shape %s, expected %s' % (tuple(t.shape), tuple(base.shape) + (2,)))
     L = t.shape[dim]
     idx = torch.arange(L, dtype=torch.int64).reshape([L if k == dim else 1 for k in range(t.dim() - 1)]).expand(t.shape[:-1])
     if left:
@@ -124,6 +145,8 @@ def run(ctx):
                 order = rng.choice(['right', 'left'])
                 usedim = dim if rng.random() < 0.5 else dim - len(sh) - 1   # negative dims count from the pair axis
                 x, base = seg_tensor(torch, sh, dim, order == 'left')
+                layout = rng.choice(['C', 'C', 'T', 'S'])
+                x = relayout(torch, x, layout)
                 x0 = x.clone()
                 try:
                     fn = pp.cumops if variant == 'cumops' else pp.cumops_
@@ -135,7 +158,7 @@ def run(ctx):
                     devs, same_in, same_res = None, None, None
                 ctx.case((variant, sh, dim, order), nontrivial=sh[dim] >= 2, branch='%s-rank%d' % (variant, len(sh)))
                 L = sh[dim]
-                meta.append(dict(kind='plain', variant=variant, shape=list(sh), dim=usedim, order=order, L=L))
+                meta.append(dict(kind='plain', variant=variant, shape=list(sh), dim=usedim, order=order, L=L, layout=layout))
                 cases.append((len(meta) - 1, L, devs, same_in, same_res, variant == 'cumops_', order == 'left'))
     body = 'From PV Require Import Model.Cumops.\nFrom Coq Require Import List ZArith Bool. Import ListNotations.\n'
     segcases, memcases = [], []
@@ -291,14 +314,24 @@ def replay(ctx, c):
         left = c.get('order', 'right') == 'left'
         x, base = seg_tensor(torch, sh, pdim, left)
         fn = getattr(pp, c.get('variant', 'cumops'))
+        xin = relayout(torch, x, c.get('layout', 'C'))
+        x0 = xin.clone()
         try:
-            y = fn(x.clone(), dim, seg_ops(torch, c.get('order', 'right')))
+            y = fn(xin, dim, seg_ops(torch, c.get('order', 'right')))
         except Exception as e:
             return 'raises %s: %s' % (type(e).__name__, str(e)[:200])
-        devs = deviations(y, base, pdim, left)
+        try:
+            devs = deviations(y, base, pdim, left)
+        except ShapeError as e:
+            return str(e)
         bad = [(b, d[:3]) for b, d in devs if d]
         if bad:
             return 'positions differing from the fold (fibre base, [(i, first, last)]): %s' % bad[:2]
+        lay = {'C': 'contiguous', 'T': 'non-contiguous (permuted view)', 'S': 'strided slice of a larger buffer'}[c.get('layout', 'C')]
+        if c.get('variant', 'cumops').endswith('_') and y.numel() and not torch.equal(xin, y):
+            return 'the in-place variant returned the fold but did not overwrite its %s input with it' % lay
+        if not c.get('variant', 'cumops').endswith('_') and not torch.equal(xin, x0):
+            return 'the out-of-place variant changed its %s input' % lay
         return None
     else:
         lt, left = c['ltype'], c['left']
